@@ -1306,7 +1306,10 @@ pub fn decode_matches(buffer: &[u8]) -> Result<(Vec<Match>, usize)> {
     let mut matches = Vec::new();
     let mut total_bits = 0;
     
-    while reader.has_bits(CompressionType::type_bits()) {
+    // encode_matches pads the last byte with up to 7 zero bits.  Every encoded match takes
+    // at least 8 bits (Literal and NearShort are exactly 8), so fewer than 8 remaining bits
+    // can only be padding, never another match.
+    while reader.has_bits(8) {
         let (match_type, bits_consumed) = decode_match(&mut reader)?;
         matches.push(match_type);
         total_bits += bits_consumed;
